@@ -3,8 +3,12 @@
    Part A  the lexer on the two spellings that start with the word `not` (state SNot of Lex/Lexer.v),
            and the layout theorem of Lex/LexProofs.v (`positions_hold`) extended to them:
              lex_text : layoutx_ok items trail = true -> lex (layoutx items trail) = LexOk (expectedx .. ++ [EOF])
-   Part B  the parser never looks at token positions:
+   Part B  the parser never looks at token positions: relabelling the positions by any phi (phi noloc = noloc)
+           relabels the result by phi and changes nothing else
+             parse_reloc : parse g o (map (reloc phi) ts) = map_result phi (parse g o ts)
              parse_strip : parse g o (strip ts) = erase_result (parse g o ts)
+           and, with index labels, where the locations of a parse come from:
+             parse_provenance, parse_locations
    Part C  the glue: for EVERY token list with a spelling and EVERY good layout, parsing the rendered
            text gives what parsing the tokens gives, up to locations (text_tokens; text_items for arbitrary
            spellings); with the token-level round trip of Parse/ParseProofs.v: text_roundtrip,
@@ -16,7 +20,8 @@
            pinned tables, the refutation of the unrestricted white-space statement (`1 not<TAB>in [ 1 ]`,
            known finding C11-notin-spacing) with the partial theorem under the decidable carve-out
            `notin_spaced`.
-   All statements about trees are up to node locations (`erase_loc`). *)
+   The round-trip statements are up to node locations (`erase_loc`); text_locations says where the nodes of
+   the parsed tree are located, for trees labelled with pairwise distinct locations. *)
 From Coq Require Import ZArith Bool List String Ascii Floats Lia.
 Require Import X.Base.Num X.Base.Value X.Syn.Ast X.Syn.Tok X.Lex.Lexer X.Lex.LexProofs.
 Require Import X.Parse.Parser X.Parse.Printer X.Parse.ParseProofs X.gen.GenGrammar X.Corr.CorrC11 X.Bridge.BrC11 X.Parse.Render.
@@ -299,228 +304,371 @@ Section TextLex.
   Qed.
 End TextLex.
 
-(* ================================================================== Part B: the parser ignores token positions *)
-Definition mp {A B : Type} (f : A -> B) (r : pres A) : pres B :=
-  match r with POk a ts => POk (f a) (strip ts) | PErr _ => PErr noloc | PFuel => PFuel end.
+(* ================================================================== Part B: the parser ignores token positions
+   Relabelling the positions of the tokens by any function phi (with phi noloc = noloc) relabels the node
+   locations of the result, and the error location, by phi — and changes nothing else. *)
+Section Reloc.
+  Variable phi : loc -> loc.
+  Hypothesis Hphi : phi noloc = noloc.
+  Notation rl := (map (reloc phi)).
 
-Definition erase_flag (xb : expr * bool) : expr * bool := (erase_loc (fst xb), snd xb).
+  Definition mp {A B : Type} (f : A -> B) (r : pres A) : pres B :=
+    match r with POk a ts => POk (f a) (rl ts) | PErr l => PErr (phi l) | PFuel => PFuel end.
 
-Lemma cur_strip : forall ts, cur (strip ts) = strip_tok (cur ts).
-Proof. destruct ts; reflexivity. Qed.
-Lemma tok_is_strip : forall t k vs, tok_is (strip_tok t) k vs = tok_is t k vs.
-Proof. intros t k [|v vs]; reflexivity. Qed.
-Lemma is_kind_strip : forall t k, is_kind (strip_tok t) k = is_kind t k.
-Proof. reflexivity. Qed.
-Lemma val_is_strip : forall t v, val_is (strip_tok t) v = val_is t v.
-Proof. reflexivity. Qed.
-Lemma tval_strip : forall t, tval (strip_tok t) = tval t.
-Proof. reflexivity. Qed.
-Lemma tkind_strip : forall t, tkind_of (strip_tok t) = tkind_of t.
-Proof. reflexivity. Qed.
-Lemma tloc_strip : forall t, tloc (strip_tok t) = noloc.
-Proof. reflexivity. Qed.
+  Definition map_flag (xb : expr * bool) : expr * bool := (map_loc phi (fst xb), snd xb).
 
-Lemma next_strip {A B : Type} (f : A -> B) (ts : list token) (k : list token -> pres A) (k' : list token -> pres B) :
-  (forall r, k' (strip r) = mp f (k r)) -> Parser.next (strip ts) k' = mp f (Parser.next ts k).
-Proof. intros H. destruct ts as [|t [|t2 r]]; cbn; [reflexivity|reflexivity|]. apply (H (t2 :: r)). Qed.
+  Lemma cur_reloc : forall ts, cur (rl ts) = reloc phi (cur ts).
+  Proof. destruct ts; [|reflexivity]. cbn. unfold eof_tok, reloc. cbn. rewrite Hphi. reflexivity. Qed.
+  Lemma tok_is_reloc : forall t k vs, tok_is (reloc phi t) k vs = tok_is t k vs.
+  Proof. intros t k [|v vs]; reflexivity. Qed.
+  Lemma is_kind_reloc : forall t k, is_kind (reloc phi t) k = is_kind t k.
+  Proof. reflexivity. Qed.
+  Lemma val_is_reloc : forall t v, val_is (reloc phi t) v = val_is t v.
+  Proof. reflexivity. Qed.
+  Lemma tval_reloc : forall t, tval (reloc phi t) = tval t.
+  Proof. reflexivity. Qed.
+  Lemma tkind_reloc : forall t, tkind_of (reloc phi t) = tkind_of t.
+  Proof. reflexivity. Qed.
+  Lemma tloc_reloc : forall t, tloc (reloc phi t) = phi (tloc t).
+  Proof. reflexivity. Qed.
 
-Lemma expect_strip {A B : Type} (f : A -> B) kd v (ts : list token) (k : list token -> pres A) (k' : list token -> pres B) :
-  (forall r, k' (strip r) = mp f (k r)) -> expect kd v (strip ts) k' = mp f (expect kd v ts k).
-Proof.
-  intros H. unfold expect. rewrite cur_strip, tok_is_strip. destruct (tok_is (cur ts) kd [v]).
-  - apply next_strip. exact H.
-  - reflexivity.
-Qed.
+  Lemma map_loc_cond : forall c x y,
+    ECond ann0 (map_loc phi c) (map_loc phi x) (map_loc phi y) = map_loc phi (ECond ann0 c x y).
+  Proof. intros. cbn [map_loc]. unfold map_ann_loc, ann0. cbn [aloc akind]. rewrite Hphi. reflexivity. Qed.
 
-Lemma pbind_strip {A A' B B' : Type} (f : A -> A') (h : B -> B') (r : pres A) (r' : pres A')
-    (k : A -> list token -> pres B) (k' : A' -> list token -> pres B') :
-  r' = mp f r -> (forall a ts, k' (f a) (strip ts) = mp h (k a ts)) -> pbind r' k' = mp h (pbind r k).
-Proof. intros -> H. destruct r; cbn; [apply H|reflexivity|reflexivity]. Qed.
-
-Section Param.
-  Variable g : grammar.
-  Variable o : oracles.
-  Variables pe pe' : Z -> nat -> list token -> pres expr.
-  Variable LF : nat.
-  Hypothesis HPE : forall p d ts, pe' p d (strip ts) = mp erase_loc (pe p d ts).
-
-  Ltac norm :=
-    cbv beta zeta;
-    rewrite ?cur_strip, ?tok_is_strip, ?is_kind_strip, ?val_is_strip, ?tval_strip, ?tkind_strip, ?tloc_strip;
-    cbn [erase_loc erase_flag fst snd].
-
-  (* one structural step; the leaves (recursive calls) are closed by the tactic given as argument *)
-  Ltac par leaf :=
-    norm;
-    lazymatch goal with
-    | |- _ = mp _ (POk _ _) => reflexivity
-    | |- _ = mp _ (PErr _) => reflexivity
-    | |- _ = mp _ PFuel => reflexivity
-    | |- _ = mp _ (Parser.next _ _) => apply next_strip; intros ?
-    | |- _ = mp _ (expect _ _ _ _) => apply expect_strip; intros ?
-    | |- _ = mp _ (pbind (pe _ _ _) _) => eapply pbind_strip; [apply HPE|]; intros ? ?
-    | |- _ = mp _ (if ?c then _ else _) => destruct c
-    | |- _ = mp _ (match ?c with _ => _ end) => destruct c
-    | |- _ => leaf
-    end.
-
-  Lemma args_loop_strip : forall lf d acc ts,
-    args_loop pe' lf d (map erase_loc acc) (strip ts) = mp (map erase_loc) (args_loop pe lf d acc ts).
+  Lemma next_reloc {A B : Type} (f : A -> B) (ts : list token) (k : list token -> pres A) (k' : list token -> pres B) :
+    (forall r, k' (rl r) = mp f (k r)) -> Parser.next (rl ts) k' = mp f (Parser.next ts k).
   Proof.
-    induction lf as [|lf IH]; intros d acc ts; cbn [args_loop]; norm;
-      destruct (tok_is (cur ts) TkBracket [")"%string]); try reflexivity.
-    assert (K : forall ts1,
-      pbind (pe' 0 d (strip ts1)) (fun node ts2 => args_loop pe' lf d (map erase_loc acc ++ [node]) ts2) =
-      mp (map erase_loc) (pbind (pe 0 d ts1) (fun node ts2 => args_loop pe lf d (acc ++ [node]) ts2))).
-    { intros ts1. eapply pbind_strip; [apply HPE|]. intros a ts2. cbv beta.
-      change [erase_loc a] with (map erase_loc [a]). rewrite <- map_app. apply IH. }
-    destruct acc as [|x acc']; [apply K|]. cbn [map]. apply expect_strip. intros ts1. apply K.
+    intros H. destruct ts as [|t [|t2 r]]; cbn [map Parser.next mp].
+    - rewrite Hphi. reflexivity.
+    - reflexivity.
+    - apply (H (t2 :: r)).
   Qed.
 
-  Lemma parse_arguments_strip : forall d ts,
-    parse_arguments pe' LF d (strip ts) = mp (map erase_loc) (parse_arguments pe LF d ts).
+  Lemma expect_reloc {A B : Type} (f : A -> B) kd v (ts : list token) (k : list token -> pres A) (k' : list token -> pres B) :
+    (forall r, k' (rl r) = mp f (k r)) -> expect kd v (rl ts) k' = mp f (expect kd v ts k).
   Proof.
-    intros d ts. unfold parse_arguments. apply expect_strip. intros ts1.
-    eapply pbind_strip; [apply (args_loop_strip LF d [] ts1)|]. intros args ts2. cbv beta.
-    apply expect_strip. intros ts3. reflexivity.
+    intros H. unfold expect. rewrite cur_reloc, tok_is_reloc. destruct (tok_is (cur ts) kd [v]).
+    - apply next_reloc. exact H.
+    - reflexivity.
   Qed.
 
-  Lemma postfix_loop_strip : forall lf d ns node ts,
-    postfix_loop pe' LF lf d ns (erase_loc node) (strip ts) = mp erase_loc (postfix_loop pe LF lf d ns node ts).
+  Lemma pbind_reloc {A A' B B' : Type} (f : A -> A') (h : B -> B') (r : pres A) (r' : pres A')
+      (k : A -> list token -> pres B) (k' : A' -> list token -> pres B') :
+    r' = mp f r -> (forall a ts, k' (f a) (rl ts) = mp h (k a ts)) -> pbind r' k' = mp h (pbind r k).
+  Proof. intros -> H. destruct r; cbn; [apply H|reflexivity|reflexivity]. Qed.
+
+  Section Param.
+    Variable g : grammar.
+    Variable o : oracles.
+    Variables pe pe' : Z -> nat -> list token -> pres expr.
+    Variable LF : nat.
+    Hypothesis HPE : forall p d ts, pe' p d (rl ts) = mp (map_loc phi) (pe p d ts).
+
+    Ltac norm :=
+      cbv beta zeta;
+      rewrite ?cur_reloc, ?tok_is_reloc, ?is_kind_reloc, ?val_is_reloc, ?tval_reloc, ?tkind_reloc, ?tloc_reloc;
+      cbn [map_loc map_flag fst snd].
+
+    (* one structural step; the leaves (recursive calls) are closed by the tactic given as argument *)
+    Ltac par leaf :=
+      norm;
+      lazymatch goal with
+      | |- _ = mp _ (POk _ _) => reflexivity
+      | |- _ = mp _ (PErr _) => reflexivity
+      | |- _ = mp _ PFuel => reflexivity
+      | |- _ = mp _ (Parser.next _ _) => apply next_reloc; intros ?
+      | |- _ = mp _ (expect _ _ _ _) => apply expect_reloc; intros ?
+      | |- _ = mp _ (pbind (pe _ _ _) _) => eapply pbind_reloc; [apply HPE|]; intros ? ?
+      | |- _ = mp _ (if ?c then _ else _) => destruct c
+      | |- _ = mp _ (match ?c with _ => _ end) => destruct c
+      | |- _ => leaf
+      end.
+
+    Lemma args_loop_reloc : forall lf d acc ts,
+      args_loop pe' lf d (map (map_loc phi) acc) (rl ts) = mp (map (map_loc phi)) (args_loop pe lf d acc ts).
+    Proof.
+      induction lf as [|lf IH]; intros d acc ts; cbn [args_loop]; norm;
+        destruct (tok_is (cur ts) TkBracket [")"%string]); try reflexivity.
+      assert (K : forall ts1,
+        pbind (pe' 0 d (rl ts1)) (fun node ts2 => args_loop pe' lf d (map (map_loc phi) acc ++ [node]) ts2) =
+        mp (map (map_loc phi)) (pbind (pe 0 d ts1) (fun node ts2 => args_loop pe lf d (acc ++ [node]) ts2))).
+      { intros ts1. eapply pbind_reloc; [apply HPE|]. intros a ts2. cbv beta.
+        change [map_loc phi a] with (map (map_loc phi) [a]). rewrite <- map_app. apply IH. }
+      destruct acc as [|x acc']; [apply K|]. cbn [map]. apply expect_reloc. intros ts1. apply K.
+    Qed.
+
+    Lemma parse_arguments_reloc : forall d ts,
+      parse_arguments pe' LF d (rl ts) = mp (map (map_loc phi)) (parse_arguments pe LF d ts).
+    Proof.
+      intros d ts. unfold parse_arguments. apply expect_reloc. intros ts1.
+      eapply pbind_reloc; [apply (args_loop_reloc LF d [] ts1)|]. intros args ts2. cbv beta.
+      apply expect_reloc. intros ts3. reflexivity.
+    Qed.
+
+    Lemma postfix_loop_reloc : forall lf d ns node ts,
+      postfix_loop pe' LF lf d ns (map_loc phi node) (rl ts) = mp (map_loc phi) (postfix_loop pe LF lf d ns node ts).
+    Proof.
+      induction lf as [|lf IH]; intros d ns node ts; cbn [postfix_loop].
+      - repeat par idtac.
+      - repeat par ltac:(first
+          [ eapply pbind_reloc; [apply parse_arguments_reloc|]; intros ? ?
+          | lazymatch goal with |- _ = mp _ (postfix_loop pe LF lf ?d ?ns ?x ?t) => exact (IH d ns x t) end ]).
+    Qed.
+
+    Lemma parse_closure_reloc : forall d ts,
+      parse_closure pe' d (rl ts) = mp (map_loc phi) (parse_closure pe d ts).
+    Proof. intros d ts. unfold parse_closure. repeat par idtac. Qed.
+
+    Lemma array_loop_reloc : forall lf d acc ts,
+      array_loop pe' lf d (map (map_loc phi) acc) (rl ts) = mp (map (map_loc phi)) (array_loop pe lf d acc ts).
+    Proof.
+      induction lf as [|lf IH]; intros d acc ts; cbn [array_loop]; norm;
+        destruct (tok_is (cur ts) TkBracket ["]"%string]); try reflexivity.
+      assert (K : forall ts1,
+        pbind (pe' 0 d (rl ts1)) (fun node ts2 => array_loop pe' lf d (map (map_loc phi) acc ++ [node]) ts2) =
+        mp (map (map_loc phi)) (pbind (pe 0 d ts1) (fun node ts2 => array_loop pe lf d (acc ++ [node]) ts2))).
+      { intros ts1. eapply pbind_reloc; [apply HPE|]. intros a ts2. cbv beta.
+        change [map_loc phi a] with (map (map_loc phi) [a]). rewrite <- map_app. apply IH. }
+      destruct acc as [|x acc']; [apply K|]. cbn [map]. apply expect_reloc. intros ts1. norm.
+      destruct (tok_is (cur ts1) TkBracket ["]"%string]); [reflexivity|apply K].
+    Qed.
+
+    Lemma parse_array_reloc : forall tk d ts,
+      parse_array pe' LF (reloc phi tk) d (rl ts) = mp (map_loc phi) (parse_array pe LF tk d ts).
+    Proof.
+      intros tk d ts. unfold parse_array. apply expect_reloc. intros ts1.
+      eapply pbind_reloc; [apply (array_loop_reloc LF d [] ts1)|]. intros nodes ts2. cbv beta.
+      apply expect_reloc. intros ts3. reflexivity.
+    Qed.
+
+    Lemma map_loop_reloc : forall lf mloc d acc ts,
+      map_loop pe' lf (phi mloc) d (map (map_loc phi) acc) (rl ts) = mp (map (map_loc phi)) (map_loop pe lf mloc d acc ts).
+    Proof.
+      induction lf as [|lf IH]; intros mloc d acc ts; cbn [map_loop]; norm;
+        destruct (tok_is (cur ts) TkBracket ["}"%string]); try reflexivity.
+      destruct acc as [|x acc']; cbn [map];
+        repeat par ltac:(idtac; lazymatch goal with
+          |- _ = mp _ (map_loop pe lf ?m ?d ?a ?t) =>
+            etransitivity; [|exact (IH m d a t)]; rewrite ?map_app; reflexivity end).
+    Qed.
+
+    Lemma parse_map_reloc : forall tk d ts,
+      parse_map pe' LF (reloc phi tk) d (rl ts) = mp (map_loc phi) (parse_map pe LF tk d ts).
+    Proof.
+      intros tk d ts. unfold parse_map. apply expect_reloc. intros ts1.
+      eapply pbind_reloc; [apply (map_loop_reloc LF (tloc tk) d [] ts1)|]. intros pairs ts2. cbv beta.
+      apply expect_reloc. intros ts3. reflexivity.
+    Qed.
+
+    Lemma parse_identifier_expression_reloc : forall tk d ts,
+      parse_identifier_expression g pe' LF (reloc phi tk) d (rl ts) =
+      mp (map_loc phi) (parse_identifier_expression g pe LF tk d ts).
+    Proof.
+      intros tk d ts. unfold parse_identifier_expression.
+      repeat par ltac:(first
+        [ eapply pbind_reloc; [apply parse_arguments_reloc|]; intros ? ?
+        | eapply pbind_reloc; [apply parse_closure_reloc|]; intros ? ? ]).
+    Qed.
+
+    Lemma parse_primary_expression_reloc : forall d ts,
+      parse_primary_expression g o pe' LF d (rl ts) = mp map_flag (parse_primary_expression g o pe LF d ts).
+    Proof.
+      intros d ts. unfold parse_primary_expression.
+      repeat par ltac:(first
+        [ eapply pbind_reloc; [apply parse_identifier_expression_reloc|]; intros ? ?
+        | eapply pbind_reloc; [apply parse_array_reloc|]; intros ? ?
+        | eapply pbind_reloc; [apply parse_map_reloc|]; intros ? ? ]).
+    Qed.
+
+    Lemma parse_base_reloc : forall d ts,
+      parse_base g o pe' LF d (rl ts) = mp map_flag (parse_base g o pe LF d ts).
+    Proof.
+      intros d ts. unfold parse_base.
+      repeat par ltac:(apply parse_primary_expression_reloc).
+    Qed.
+
+    Lemma parse_primary_reloc : forall d ts,
+      parse_primary g o pe' LF d (rl ts) = mp (map_loc phi) (parse_primary g o pe LF d ts).
+    Proof.
+      intros d ts. unfold parse_primary.
+      eapply pbind_reloc; [apply parse_base_reloc|]. intros [x b] ts1. cbn [map_flag fst snd].
+      destruct b; [apply postfix_loop_reloc|reflexivity].
+    Qed.
+
+    Lemma binary_loop_reloc : forall lf prec d left ts,
+      binary_loop g o pe' lf prec d (map_loc phi left) (rl ts) = mp (map_loc phi) (binary_loop g o pe lf prec d left ts).
+    Proof.
+      induction lf as [|lf IH]; intros prec d left ts; cbn [binary_loop].
+      - repeat par idtac.
+      - repeat par ltac:(idtac; lazymatch goal with
+          |- _ = mp _ (binary_loop g o pe lf ?p ?d ?x ?t) => exact (IH p d x t) end).
+    Qed.
+
+    Lemma cond_loop_reloc : forall lf d node ts,
+      cond_loop pe' lf d (map_loc phi node) (rl ts) = mp (map_loc phi) (cond_loop pe lf d node ts).
+    Proof.
+      induction lf as [|lf IH]; intros d node ts; cbn [cond_loop].
+      - repeat par idtac.
+      - repeat par ltac:(idtac; lazymatch goal with
+          |- _ = mp _ (cond_loop pe lf ?d ?x ?t) => rewrite map_loc_cond; exact (IH d x t) end).
+    Qed.
+
+    Lemma expression_body_reloc : forall prec d ts,
+      expression_body g o pe' LF prec d (rl ts) = mp (map_loc phi) (expression_body g o pe LF prec d ts).
+    Proof.
+      intros prec d ts. unfold expression_body.
+      eapply pbind_reloc; [apply parse_primary_reloc|]. intros left ts1. cbv beta.
+      eapply pbind_reloc; [apply binary_loop_reloc|]. intros node ts2. cbv beta.
+      destruct (prec =? 0); [apply cond_loop_reloc|reflexivity].
+    Qed.
+  End Param.
+
+  Lemma parse_expr_reloc (g : grammar) (o : oracles) : forall n p d ts,
+    parse_expr g o n p d (rl ts) = mp (map_loc phi) (parse_expr g o n p d ts).
   Proof.
-    induction lf as [|lf IH]; intros d ns node ts; cbn [postfix_loop].
-    - repeat par idtac.
-    - repeat par ltac:(first
-        [ eapply pbind_strip; [apply parse_arguments_strip|]; intros ? ?
-        | lazymatch goal with |- _ = mp _ (postfix_loop pe LF lf ?d ?ns ?x ?t) => exact (IH d ns x t) end ]).
+    induction n as [|n IH]; intros p d ts; cbn [parse_expr]; [reflexivity|].
+    apply expression_body_reloc. exact IH.
   Qed.
 
-  Lemma parse_closure_strip : forall d ts,
-    parse_closure pe' d (strip ts) = mp erase_loc (parse_closure pe d ts).
-  Proof. intros d ts. unfold parse_closure. repeat par idtac. Qed.
-
-  Lemma array_loop_strip : forall lf d acc ts,
-    array_loop pe' lf d (map erase_loc acc) (strip ts) = mp (map erase_loc) (array_loop pe lf d acc ts).
+  Theorem parse_reloc (g : grammar) (o : oracles) : forall ts,
+    parse g o (rl ts) = map_result phi (parse g o ts).
   Proof.
-    induction lf as [|lf IH]; intros d acc ts; cbn [array_loop]; norm;
-      destruct (tok_is (cur ts) TkBracket ["]"%string]); try reflexivity.
-    assert (K : forall ts1,
-      pbind (pe' 0 d (strip ts1)) (fun node ts2 => array_loop pe' lf d (map erase_loc acc ++ [node]) ts2) =
-      mp (map erase_loc) (pbind (pe 0 d ts1) (fun node ts2 => array_loop pe lf d (acc ++ [node]) ts2))).
-    { intros ts1. eapply pbind_strip; [apply HPE|]. intros a ts2. cbv beta.
-      change [erase_loc a] with (map erase_loc [a]). rewrite <- map_app. apply IH. }
-    destruct acc as [|x acc']; [apply K|]. cbn [map]. apply expect_strip. intros ts1. norm.
-    destruct (tok_is (cur ts1) TkBracket ["]"%string]); [reflexivity|apply K].
+    intros ts. unfold parse. rewrite map_length. unfold parse_with_fuel.
+    destruct ts as [|t r]; [cbn [map map_result]; rewrite Hphi; reflexivity|].
+    change (rl (t :: r)) with (reloc phi t :: rl r) at 1. cbv iota.
+    change (reloc phi t :: rl r) with (rl (t :: r)).
+    rewrite parse_expr_reloc. destruct (parse_expr g o (S (List.length (t :: r))) 0 0 (t :: r)) as [e rest| |]; cbn [mp]; try reflexivity.
+    rewrite cur_reloc, is_kind_reloc. destruct (is_kind (cur rest) TkEOF); reflexivity.
   Qed.
-
-  Lemma parse_array_strip : forall tk d ts,
-    parse_array pe' LF (strip_tok tk) d (strip ts) = mp erase_loc (parse_array pe LF tk d ts).
-  Proof.
-    intros tk d ts. unfold parse_array. apply expect_strip. intros ts1.
-    eapply pbind_strip; [apply (array_loop_strip LF d [] ts1)|]. intros nodes ts2. cbv beta.
-    apply expect_strip. intros ts3. reflexivity.
-  Qed.
-
-  Lemma map_loop_strip : forall lf mloc d acc ts,
-    map_loop pe' lf noloc d (map erase_loc acc) (strip ts) = mp (map erase_loc) (map_loop pe lf mloc d acc ts).
-  Proof.
-    induction lf as [|lf IH]; intros mloc d acc ts; cbn [map_loop]; norm;
-      destruct (tok_is (cur ts) TkBracket ["}"%string]); try reflexivity.
-    destruct acc as [|x acc']; cbn [map];
-      repeat par ltac:(idtac; lazymatch goal with
-        |- _ = mp _ (map_loop pe lf ?m ?d ?a ?t) =>
-          etransitivity; [|exact (IH m d a t)]; rewrite ?map_app; reflexivity end).
-  Qed.
-
-  Lemma parse_map_strip : forall tk d ts,
-    parse_map pe' LF (strip_tok tk) d (strip ts) = mp erase_loc (parse_map pe LF tk d ts).
-  Proof.
-    intros tk d ts. unfold parse_map. apply expect_strip. intros ts1.
-    eapply pbind_strip; [apply (map_loop_strip LF (tloc tk) d [] ts1)|]. intros pairs ts2. cbv beta.
-    apply expect_strip. intros ts3. reflexivity.
-  Qed.
-
-  Lemma parse_identifier_expression_strip : forall tk d ts,
-    parse_identifier_expression g pe' LF (strip_tok tk) d (strip ts) =
-    mp erase_loc (parse_identifier_expression g pe LF tk d ts).
-  Proof.
-    intros tk d ts. unfold parse_identifier_expression.
-    repeat par ltac:(first
-      [ eapply pbind_strip; [apply parse_arguments_strip|]; intros ? ?
-      | eapply pbind_strip; [apply parse_closure_strip|]; intros ? ? ]).
-  Qed.
-
-  Lemma parse_primary_expression_strip : forall d ts,
-    parse_primary_expression g o pe' LF d (strip ts) = mp erase_flag (parse_primary_expression g o pe LF d ts).
-  Proof.
-    intros d ts. unfold parse_primary_expression.
-    repeat par ltac:(first
-      [ eapply pbind_strip; [apply parse_identifier_expression_strip|]; intros ? ?
-      | eapply pbind_strip; [apply parse_array_strip|]; intros ? ?
-      | eapply pbind_strip; [apply parse_map_strip|]; intros ? ? ]).
-  Qed.
-
-  Lemma parse_base_strip : forall d ts,
-    parse_base g o pe' LF d (strip ts) = mp erase_flag (parse_base g o pe LF d ts).
-  Proof.
-    intros d ts. unfold parse_base.
-    repeat par ltac:(apply parse_primary_expression_strip).
-  Qed.
-
-  Lemma parse_primary_strip : forall d ts,
-    parse_primary g o pe' LF d (strip ts) = mp erase_loc (parse_primary g o pe LF d ts).
-  Proof.
-    intros d ts. unfold parse_primary.
-    eapply pbind_strip; [apply parse_base_strip|]. intros [x b] ts1. cbn [erase_flag fst snd].
-    destruct b; [apply postfix_loop_strip|reflexivity].
-  Qed.
-
-  Lemma binary_loop_strip : forall lf prec d left ts,
-    binary_loop g o pe' lf prec d (erase_loc left) (strip ts) = mp erase_loc (binary_loop g o pe lf prec d left ts).
-  Proof.
-    induction lf as [|lf IH]; intros prec d left ts; cbn [binary_loop].
-    - repeat par idtac.
-    - repeat par ltac:(idtac; lazymatch goal with
-        |- _ = mp _ (binary_loop g o pe lf ?p ?d ?x ?t) => exact (IH p d x t) end).
-  Qed.
-
-  Lemma cond_loop_strip : forall lf d node ts,
-    cond_loop pe' lf d (erase_loc node) (strip ts) = mp erase_loc (cond_loop pe lf d node ts).
-  Proof.
-    induction lf as [|lf IH]; intros d node ts; cbn [cond_loop].
-    - repeat par idtac.
-    - repeat par ltac:(idtac; lazymatch goal with
-        |- _ = mp _ (cond_loop pe lf ?d ?x ?t) => exact (IH d x t) end).
-  Qed.
-
-  Lemma expression_body_strip : forall prec d ts,
-    expression_body g o pe' LF prec d (strip ts) = mp erase_loc (expression_body g o pe LF prec d ts).
-  Proof.
-    intros prec d ts. unfold expression_body.
-    eapply pbind_strip; [apply parse_primary_strip|]. intros left ts1. cbv beta.
-    eapply pbind_strip; [apply binary_loop_strip|]. intros node ts2. cbv beta.
-    destruct (prec =? 0); [apply cond_loop_strip|reflexivity].
-  Qed.
-End Param.
-
-Lemma parse_expr_strip (g : grammar) (o : oracles) : forall n p d ts,
-  parse_expr g o n p d (strip ts) = mp erase_loc (parse_expr g o n p d ts).
-Proof.
-  induction n as [|n IH]; intros p d ts; cbn [parse_expr]; [reflexivity|].
-  apply expression_body_strip. exact IH.
-Qed.
+End Reloc.
 
 (* parsing a token list without its positions = parsing it and forgetting the locations afterwards
    (in particular: the same outcome class, and the same tree up to locations) *)
 Theorem parse_strip (g : grammar) (o : oracles) : forall ts,
   parse g o (strip ts) = erase_result (parse g o ts).
+Proof. intros ts. exact (parse_reloc (fun _ => noloc) eq_refl g o ts). Qed.
+
+(* ---- index labels: two token lists with the same kinds and values are relabellings of ONE list, so their
+   parses are relabellings of ONE tree: every node location comes from the token at the same index *)
+Lemma index_same : forall ts1 ts2 i, strip ts1 = strip ts2 -> index_from i ts1 = index_from i ts2.
 Proof.
-  intros ts. unfold parse.
-  replace (List.length (strip ts)) with (List.length ts) by (unfold strip; rewrite map_length; reflexivity).
-  unfold parse_with_fuel.
-  destruct ts as [|t r]; [reflexivity|]. change (strip_tok t :: strip r) with (strip (t :: r)).
-  rewrite parse_expr_strip. destruct (parse_expr g o (S (List.length (t :: r))) 0 0 (t :: r)) as [e rest| |]; cbn [mp]; try reflexivity.
-  rewrite cur_strip, is_kind_strip. destruct (is_kind (cur rest) TkEOF); reflexivity.
+  induction ts1 as [|t1 r1 IH]; intros [|t2 r2] i H; try discriminate H; [reflexivity|].
+  cbn [strip map] in H. injection H as K V H. cbn [index_from]. rewrite K, V. f_equal. apply IH. exact H.
+Qed.
+
+Lemma nth_error_mid : forall (A : Type) (pre : list A) (t : A) (r : list A),
+  nth_error (pre ++ t :: r) (List.length pre) = Some t.
+Proof. induction pre as [|x pre IH]; intros t r; [reflexivity|]. cbn [app List.length nth_error]. apply IH. Qed.
+
+Lemma reloc_index : forall r pre, map (reloc (nth_loc (pre ++ r))) (index_from (List.length pre) r) = r.
+Proof.
+  induction r as [|t r IH]; intros pre; [reflexivity|]. cbn [index_from map]. f_equal.
+  - unfold reloc, nth_loc. cbn [tloc tkind_of tval fst snd]. change (0 =? 0) with true.
+    replace (1 <=? Z.of_nat (S (List.length pre))) with true by (symmetry; apply Z.leb_le; lia).
+    cbn [andb]. replace (Z.to_nat (Z.of_nat (S (List.length pre)) - 1)) with (List.length pre) by lia.
+    rewrite nth_error_mid. destruct t; reflexivity.
+  - specialize (IH (pre ++ [t])). rewrite <- app_assoc in IH. cbn [app] in IH.
+    rewrite app_length in IH. cbn [List.length] in IH. rewrite Nat.add_1_r in IH. exact IH.
+Qed.
+
+Theorem parse_index (g : grammar) (o : oracles) : forall ts,
+  parse g o ts = map_result (nth_loc ts) (parse g o (index_from 0 ts)).
+Proof.
+  intros ts. rewrite <- (parse_reloc (nth_loc ts) eq_refl g o). f_equal. symmetry. apply (reloc_index ts []).
+Qed.
+
+(* provenance of locations *)
+Theorem parse_provenance (g : grammar) (o : oracles) : forall ts1 ts2, strip ts1 = strip ts2 ->
+  exists R, parse g o ts1 = map_result (nth_loc ts1) R /\ parse g o ts2 = map_result (nth_loc ts2) R.
+Proof.
+  intros ts1 ts2 H. exists (parse g o (index_from 0 ts1)). split; [apply parse_index|].
+  rewrite (index_same ts1 ts2 0 H). apply parse_index.
+Qed.
+
+Lemma nth_error_map' : forall (A B : Type) (f : A -> B) (l : list A) (n : nat),
+  nth_error (map f l) n = option_map f (nth_error l n).
+Proof. induction l as [|x l IH]; intros [|n]; cbn; auto. Qed.
+
+Lemma pchild_map_loc : forall phi e i, pchild (map_loc phi e) i = option_map (map_loc phi) (pchild e i).
+Proof.
+  intros phi e i. destruct e; cbn [map_loc pchild]; try reflexivity;
+    try (destruct i as [|[|[|i]]]; reflexivity);
+    try (destruct i as [|i]; [reflexivity|]); try apply nth_error_map'.
+Qed.
+
+Lemma node_at_map_loc : forall phi p e, node_at (map_loc phi e) p = option_map (map_loc phi) (node_at e p).
+Proof.
+  intros phi. induction p as [|i p IH]; intros e; [reflexivity|]. cbn [node_at]. rewrite pchild_map_loc.
+  destruct (pchild e i) as [x|]; [apply IH|reflexivity].
+Qed.
+
+Lemma loc_of_map_loc : forall phi e, loc_of (map_loc phi e) = phi (loc_of e).
+Proof. intros phi e. destruct e; reflexivity. Qed.
+
+Lemma loc_eqb_refl : forall x, loc_eqb x x = true.
+Proof. intros [a b]. unfold loc_eqb. cbn. rewrite !Z.eqb_refl. reflexivity. Qed.
+
+(* with pairwise distinct labels, `loc_at` finds the position standing at the index of THE token labelled l *)
+Lemma loc_at_nth : forall ts ps i tk p, distinct_locs ts = true ->
+  nth_error ts i = Some tk -> tloc tk <> noloc -> nth_error ps i = Some p -> loc_at ts ps (tloc tk) = p.
+Proof.
+  induction ts as [|t0 r IH]; intros ps i tk p D N L P; [destruct i; discriminate N|].
+  cbn [distinct_locs] in D. apply andb_true_iff in D. destruct D as [D0 D].
+  destruct ps as [|p0 q]; [destruct i; discriminate P|]. cbn [loc_at].
+  destruct i as [|i].
+  - cbn in N, P. injection N as <-. injection P as <-. rewrite loc_eqb_refl. reflexivity.
+  - cbn [nth_error] in N, P. destruct (loc_eqb (tloc t0) (tloc tk)) eqn:E; [|apply (IH q i tk p D N L P)].
+    exfalso. apply loc_eqb_eq in E. apply orb_true_iff in D0. destruct D0 as [D0|D0].
+    + apply loc_eqb_eq in D0. congruence.
+    + apply negb_true_iff in D0. assert (X : existsb (fun u => loc_eqb (tloc u) (tloc t0)) r = true); [|congruence].
+      apply existsb_exists. exists tk. split; [eapply nth_error_In; exact N|]. rewrite E. apply loc_eqb_refl.
+Qed.
+
+Lemma nth_loc_inv : forall ts l, nth_loc ts l <> noloc ->
+  exists i tk, nth_error ts i = Some tk /\ nth_loc ts l = tloc tk /\ l = (Z.of_nat (S i), 0).
+Proof.
+  intros ts [a b] H. unfold nth_loc in *. cbn [fst snd] in *.
+  destruct ((b =? 0) && (1 <=? a)) eqn:C; [|congruence].
+  apply andb_true_iff in C. destruct C as [C1 C2]. apply Z.eqb_eq in C1. apply Z.leb_le in C2.
+  destruct (nth_error ts (Z.to_nat (a - 1))) as [tk|] eqn:N; [|congruence].
+  exists (Z.to_nat (a - 1)), tk. repeat split; try assumption. f_equal; lia.
+Qed.
+
+Lemma nth_loc_index : forall ts i tk, nth_error ts i = Some tk -> nth_loc ts (Z.of_nat (S i), 0) = tloc tk.
+Proof.
+  intros ts i tk N. unfold nth_loc. cbn [fst snd]. change (0 =? 0) with true.
+  replace (1 <=? Z.of_nat (S i)) with true by (symmetry; apply Z.leb_le; lia). cbn [andb].
+  replace (Z.to_nat (Z.of_nat (S i) - 1)) with i by lia. rewrite N. reflexivity.
+Qed.
+
+Lemma strip_nth : forall ts1 ts2 i tk, strip ts1 = strip ts2 -> nth_error ts1 i = Some tk ->
+  exists tk', nth_error ts2 i = Some tk'.
+Proof.
+  induction ts1 as [|t1 r1 IH]; intros [|t2 r2] i tk H N; try discriminate H; [destruct i; discriminate N|].
+  destruct i as [|i]; [exists t2; reflexivity|]. cbn [strip map] in H. injection H as _ _ H.
+  apply (IH r2 i tk H N).
+Qed.
+
+(* Two token lists with the same kinds and values, the first with pairwise distinct labels: every labelled node
+   of the first parse stands, in the second parse, at the location of the token at the index of its label *)
+Theorem parse_locations (g : grammar) (o : oracles) : forall ts1 ts2 t1 t2,
+  strip ts1 = strip ts2 -> distinct_locs ts1 = true ->
+  parse g o ts1 = ROk t1 -> parse g o ts2 = ROk t2 ->
+  forall path x, node_at t1 path = Some x -> loc_of x <> noloc ->
+  exists x', node_at t2 path = Some x' /\ loc_of x' = loc_at ts1 (map tloc ts2) (loc_of x).
+Proof.
+  intros ts1 ts2 t1 t2 HS HD P1 P2 path x N L.
+  destruct (parse_provenance g o ts1 ts2 HS) as (R & E1 & E2). rewrite P1 in E1. rewrite P2 in E2.
+  destruct R as [T| |]; try discriminate E1. cbn [map_result] in E1, E2. injection E1 as E1. injection E2 as E2. subst t1 t2.
+  rewrite node_at_map_loc in N. destruct (node_at T path) as [X|] eqn:NT; [|discriminate N]. cbn [option_map] in N.
+  injection N as <-. rewrite loc_of_map_loc in L |- *.
+  destruct (nth_loc_inv ts1 (loc_of X) L) as (i & tk & N1 & E & EL).
+  destruct (strip_nth ts1 ts2 i tk HS N1) as (tk' & N2).
+  exists (map_loc (nth_loc ts2) X). rewrite node_at_map_loc, NT. split; [reflexivity|].
+  rewrite loc_of_map_loc, E. rewrite E in L. rewrite EL, (nth_loc_index ts2 i tk' N2).
+  symmetry. apply (loc_at_nth ts1 (map tloc ts2) i tk (tloc tk') HD N1 L).
+  rewrite nth_error_map', N2. reflexivity.
 Qed.
 
 (* ================================================================== Part C: text -> tokens -> tree *)
@@ -598,6 +746,17 @@ Section Text.
     destruct (pre_spell_all toks) as [ps|] eqn:E; [|discriminate].
     unfold render_pre. rewrite (lex_text uni_letter uni_digit uni_space _ _ H).
     rewrite <- !parse_strip. f_equal.
+    unfold strip at 1. rewrite map_app. fold (strip (expectedx (1, 0) (items_of L 0 ps))).
+    rewrite strip_expectedx. cbn [map]. unfold strip_tok at 1. cbn [tkind_of tval].
+    apply spell_all_strip. exact E.
+  Qed.
+
+  Lemma render_lexes : forall L toks, layout_good L toks = true ->
+    exists lexed, lex uni_letter uni_digit uni_space (render L toks) = LexOk lexed /\ strip lexed = strip toks.
+  Proof.
+    intros L toks H. unfold Render.layout_good, Render.render in *.
+    destruct (pre_spell_all toks) as [ps|] eqn:E; [|discriminate].
+    unfold render_pre. rewrite (lex_text uni_letter uni_digit uni_space _ _ H). eexists. split; [reflexivity|].
     unfold strip at 1. rewrite map_app. fold (strip (expectedx (1, 0) (items_of L 0 ps))).
     rewrite strip_expectedx. cbn [map]. unfold strip_tok at 1. cbn [tkind_of tval].
     apply spell_all_strip. exact E.
@@ -878,6 +1037,27 @@ Section Text.
     Proof.
       intros c t L W H. apply erase_result_ok.
       rewrite (text_tokens g o L _ H). rewrite (roundtrip g o fmt_int fmt_float G c t W). reflexivity.
+    Qed.
+
+    (* ... and where the tree carries pairwise distinct labels as locations (of the tokens of its printing:
+       `distinct_locs`), every labelled node of the parsed tree stands at the position the lexer gives to the
+       token that carries the label (`text_positions`: the positions of the tokens of the text, made explicit
+       by lex_text; `loc_at ts ps l`: the element of ps at the index of the token of ts labelled l) *)
+    Theorem text_locations : forall c t L,
+      printable c t -> layout_good L (print_any c t) = true -> distinct_locs (print_any c t) = true ->
+      exists t', parse_text g o (render L (print_any c t)) = ROk t' /\ erase_loc t' = erase_loc t /\
+        forall path x, node_at t path = Some x -> loc_of x <> noloc ->
+          exists x', node_at t' path = Some x' /\
+            loc_of x' = loc_at (print_any c t)
+                               (text_positions uni_letter uni_digit uni_space (render L (print_any c t))) (loc_of x).
+    Proof.
+      intros c t L W H D. destruct (text_roundtrip c t L W H) as (t' & P & E).
+      exists t'. split; [exact P|]. split; [exact E|].
+      destruct (render_lexes L _ H) as (lexed & LX & ST).
+      unfold Render.parse_text in P. rewrite LX in P. unfold Render.text_positions. rewrite LX.
+      intros path x N Lx.
+      apply (parse_locations g o (print_any c t) lexed t t'); auto.
+      apply (roundtrip g o fmt_int fmt_float G c t W).
     Qed.
 
     Theorem whitespace_irrelevant : forall c t L1 L2,
@@ -1177,6 +1357,18 @@ Section Final.
     exists t', parse_text g o (render L (print_any c t)) = ROk t' /\ erase_loc t' = erase_loc t.
   Proof.
     intros c t L W HT HW. apply (text_roundtrip uni_letter uni_digit uni_space g o fmt_int fmt_float G c t L W).
+    apply white_good; assumption.
+  Qed.
+
+  Theorem text_locations_tree : forall c t L,
+    printable c t -> textable t = true -> white L (print_any c t) = true -> distinct_locs (print_any c t) = true ->
+    exists t', parse_text g o (render L (print_any c t)) = ROk t' /\ erase_loc t' = erase_loc t /\
+      forall path x, node_at t path = Some x -> loc_of x <> noloc ->
+        exists x', node_at t' path = Some x' /\
+          loc_of x' = loc_at (print_any c t)
+                             (text_positions uni_letter uni_digit uni_space (render L (print_any c t))) (loc_of x).
+  Proof.
+    intros c t L W HT HW D. apply (text_locations uni_letter uni_digit uni_space g o fmt_int fmt_float G c t L W); [|exact D].
     apply white_good; assumption.
   Qed.
 
